@@ -9,20 +9,22 @@
         r_{n-1}  := 0                        (SET to zero by the repaired loop: the residual r_{n-1} - c v_{m-1},
                                              about u |c| |v_{m-1}|, is discarded and goes into the error)
         r_k unchanged for k < s.
-   Invariant after p passes, for every coefficient index k (E = accumulated error):
-        a_k = (q*v)_k + r_k + E_k ,   |E_k| <= G_p (|a_k| + Sum_i |q_i| |v_{k-i}|),   G_p = (1-u)^(-2p) - 1 <= gam(2p)
-   (per pass |E'_k| <= (1+u)|E_k| + u(|a_k| + Sum|q_i||v_{k-i}|) + (2u+u^2)|c||v_{k-s}|, the intermediate remainder being
-   bounded through the invariant itself: |r_k| <= |a_k| + Sum|q_i||v_{k-i}| + |E_k|).  At most N = len a + 1 - len v passes.
+   Invariant, for every coefficient index k (E = accumulated error, c_k = number of passes that touched index k so far):
+        a_k = (q*v)_k + r_k + E_k ,   |E_k| <= G_{c_k} (|a_k| + Sum_i |q_i| |v_{k-i}|),   G_c = (1-u)^(-2c) - 1 <= gam(2c)
+   (per touching pass |E'_k| <= (1+u)|E_k| + u(|a_k| + Sum|q_i||v_{k-i}|) + (2u+u^2)|c||v_{k-s}|, the intermediate remainder
+   being bounded through the invariant itself: |r_k| <= |a_k| + Sum|q_i||v_{k-i}| + |E_k|).  There are at most
+   N = len a + 1 - len v passes, their shifts s are distinct, and index k is touched only when k - len v < s <= k:
+   c_k <= M = min(N, len v).
 
-     polydiv_rounded_identity_lemma :
-        polydiv a v = Ok (q, r)  ->  for every k
-        | a_k - Sum_{i<=k} q_i v_{k-i} - r_k |  <=  gam (2 N) ( |a_k| + Sum_{i<=k} |q_i| |v_{k-i}| ),   N = len a + 1 - len v
+     polydiv_rounded_identity_lemma :   polydiv a v = Ok (q, r)  ->  for every k
+        | a_k - Sum_{i<=k} q_i v_{k-i} - r_k |  <=  gam (2 M) ( |a_k| + Sum_{i<=k} |q_i| |v_{k-i}| )
+     polydiv_rounded_residual_lemma :   the same error  <=  gam (4 M) ( Sum_{i<=k} |q_i| |v_{k-i}| + |r_k| )
 
    where Sum q_i v_{k-i} is the EXACT real convolution.  Hypotheses beside the four operations' (1+d) laws: the leading
    coefficient of v is not zero (the model's division by an exact zero is unconstrained), the coefficients of the
    dividend are floating-point numbers, and the facts about the set F of floating-point numbers true of every
    correctly rounded arithmetic: results of -,*,/ are in F; 0 + x = x, x + 0 = x, x - 0 = x for x in F.  (F and its
-   laws are Section hypotheses; Proofs/Round2PinPoly.v discharges them for round-to-nearest-even in precision 53.)
+   laws are Section hypotheses; Proofs/Round2PolyB.v discharges them for round-to-nearest-even in precision 53.)
    Nothing is asked of the coefficients of v. *)
 From Coq Require Import List Arith Lia Bool Reals Lra Psatz.
 From OV Require Import Base.Panic Base.Arith Base.RoundModel gen.Params Model.Poly Proofs.Poly Proofs.PolyDiv.
@@ -250,7 +252,8 @@ Lemma body_round (q r q1 r1 : list R) :
     (forall k, (k < length r - length v)%nat -> nth k r1 0 = nth k r 0) /\
     (forall k, (length r - length v <= k < length r - 1)%nat -> exists d1 d2, Rabs d1 <= u /\ Rabs d2 <= u /\
          nth k r1 0 = (nth k r 0 - c * nth (k - (length r - length v)) v 0 * (1 + d1)) * (1 + d2)) /\
-    (forall k, (length r - 1 <= k)%nat -> nth k r1 0 = 0).
+    (forall k, (length r - 1 <= k)%nat -> nth k r1 0 = 0) /\
+    (length r1 <= length r)%nat.
 Proof using u_range fadd_ok fsub_ok fmul_ok fdiv_ok F_sub F_mul F_div fadd_0_l fadd_0_r fsub_0_r v_lead.
   intros Nr Hlen Fq Fr Zs E. pose proof v_nonempty as Nv.
   unfold polydiv_body in E. cbv zeta in E. change (T AR) with R in *. change (@zero AR) with 0 in E.
@@ -311,8 +314,13 @@ Proof using u_range fadd_ok fsub_ok fmul_ok fdiv_ok F_sub F_mul F_div fadd_0_l f
     destruct (fmul_ok c (nth (k - s) v 0)) as (d1 & Hd1 & Ed1).
     destruct (fsub_ok (nth k r 0) (fmul c (nth (k - s) v 0))) as (d2 & Hd2 & Ed2).
     exists d1, d2. split; [exact Hd1|]. split; [exact Hd2|]. rewrite Ed2, Ed1. reflexivity. }
-  intros k Hk. rewrite R3. destruct (Nat.eqb_spec k (length r - 1)); [reflexivity|].
-  apply nth_overflow. lia.
+  split.
+  { intros k Hk. rewrite R3. destruct (Nat.eqb_spec k (length r - 1)); [reflexivity|].
+    apply nth_overflow. lia. }
+  destruct (@ptrim_ok AR (upd_list r0 (length r0 - 1) 0)) as (p' & Ep & _ & Lp).
+  { intros Z. apply (f_equal (@length _)) in Z. rewrite upd_list_length in Z. cbn [length] in Z.
+    change (T AR) with R in *. lia. }
+  rewrite E3 in Ep. injection Ep as <-. rewrite upd_list_length in Lp. change (T AR) with R in *. lia.
 Qed.
 
 
@@ -383,74 +391,100 @@ Proof using u_range.
 Qed.
 
 Variable a : list R.
-Definition Inv (p : nat) (q r : list R) : Prop :=
-  forall k, Rabs (nth k a 0 - rconv q v k - nth k r 0) <= G p * (Rabs (nth k a 0) + aconv q v k).
+Definition err (q r : list R) (k : nat) : R := nth k a 0 - rconv q v k - nth k r 0.
+Definition bd (q : list R) (k : nat) : R := Rabs (nth k a 0) + aconv q v k.
 
-Lemma Inv_mono p p' q r : (p <= p')%nat -> Inv p q r -> Inv p' q r.
-Proof using u_range.
-  intros L H k. eapply Rle_trans; [apply H|]. apply Rmult_le_compat_r; [|now apply G_mono].
-  pose proof (Rabs_pos (nth k a 0)). pose proof (aconv_nonneg q v k). lra.
-Qed.
+Lemma bd_nonneg q k : 0 <= bd q k.
+Proof. unfold bd. pose proof (Rabs_pos (nth k a 0)). pose proof (aconv_nonneg q v k). lra. Qed.
 
-Lemma body_inv p (q r q1 r1 : list R) :
+(* one pass, one coefficient: an index inside the window [s, n-1] of the pass collects one more unit of the counter,
+   the others keep their error *)
+Lemma body_err (c : nat) (q r q1 r1 : list R) k :
   r <> [] -> (length v <= length r)%nat -> Fall q -> Fall r ->
   nth (length r - length v) q 0 = 0 ->
   polydiv_body (A := AR) q r v = Ok (q1, r1) ->
-  Inv p q r -> Inv (S p) q1 r1.
+  Rabs (err q r k) <= G c * bd q k ->
+  Rabs (err q1 r1 k) <= G (if ((length r - length v <=? k) && (k <? length r))%nat%bool then S c else c) * bd q1 k.
 Proof using u_range fadd_ok fsub_ok fmul_ok fdiv_ok F_sub F_mul F_div fadd_0_l fadd_0_r fsub_0_r v_lead.
   intros Nr Hlen Fq Fr Zs E I.
-  destruct (body_round q r q1 r1 Nr Hlen Fq Fr Zs E) as (c & Fc & (d0 & Hd0 & Ed0) & Q1 & _ & _ & Rlo & Rmid & Rhi).
+  destruct (body_round q r q1 r1 Nr Hlen Fq Fr Zs E) as (cc & Fc & (d0 & Hd0 & Ed0) & Q1 & _ & _ & Rlo & Rmid & Rhi & _).
   pose proof v_nonempty as Nv.
   assert (Lv : (0 < length v)%nat) by (destruct v; [congruence|cbn; lia]).
   set (s := (length r - length v)%nat) in *.
-  intros k.
-  rewrite (rconv_add_monomial q q1 v s c k Q1), (aconv_add_monomial q q1 v s c k Zs Q1).
-  specialize (I k). set (e := nth k a 0 - rconv q v k - nth k r 0) in *.
+  unfold err, bd in *.
+  rewrite (rconv_add_monomial q q1 v s cc k Q1), (aconv_add_monomial q q1 v s cc k Zs Q1).
+  set (e := nth k a 0 - rconv q v k - nth k r 0) in *.
   set (B := Rabs (nth k a 0) + aconv q v k) in *.
-  assert (HB : 0 <= B).
-  { unfold B. pose proof (Rabs_pos (nth k a 0)). pose proof (aconv_nonneg q v k). lra. }
+  assert (HB : 0 <= B) by apply bd_nonneg.
   assert (Hr : Rabs (nth k r 0) <= B + Rabs e).
   { replace (nth k r 0) with (nth k a 0 + - rconv q v k + - e) by (unfold e; ring).
     eapply Rle_trans; [apply Rabs_triang|]. eapply Rle_trans; [apply Rplus_le_compat_r, Rabs_triang|].
     rewrite !Rabs_Ropp. pose proof (rconv_le_aconv q v k). unfold B. lra. }
-  pose proof (G_nonneg p) as Gp. destruct (G_step p) as (S1 & S2 & S3).
+  pose proof (G_nonneg c) as Gp. destruct (G_step c) as (S1 & S2 & S3).
   assert (U0 : Rabs 0 <= u) by (rewrite Rabs_R0; lra).
-  assert (Easy : forall y, 0 <= y -> Rabs e <= G (S p) * (B + y)).
-  { intros y Hy. eapply Rle_trans; [exact I|]. pose proof (G_nonneg (S p)). nra. }
   destruct (Nat.lt_ge_cases k s) as [Ks|Ks].
   { (* below the window: untouched *)
-    destruct (Nat.leb_spec s k); [lia|]. rewrite (Rlo k Ks), !Rplus_0_r. fold e. fold B.
-    specialize (Easy 0 (Rle_refl 0)). now rewrite Rplus_0_r in Easy. }
-  destruct (Nat.leb_spec s k); [|lia].
+    destruct (Nat.leb_spec s k); [lia|]. cbn [andb]. rewrite (Rlo k Ks), !Rplus_0_r. exact I. }
+  destruct (Nat.leb_spec s k); [|lia]. cbn [andb].
   destruct (Nat.lt_ge_cases k (length r - 1)) as [Km|Km].
   { (* inside the window: one rounded product, one rounded subtraction *)
+    destruct (Nat.ltb_spec k (length r)); [|lia].
     destruct (Rmid k (conj Ks Km)) as (d1 & d2 & Hd1 & Hd2 & ->).
-    set (x := c * nth (k - s) v 0).
+    set (x := cc * nth (k - s) v 0).
     replace (nth k a 0 - (rconv q v k + x) - (nth k r 0 - x * (1 + d1)) * (1 + d2))
       with (e - nth k r 0 * d2 + x * (d1 + d2 + d1 * d2)) by (unfold e; ring).
     rewrite <- Rabs_mult. fold x. fold B.
     replace (Rabs (nth k a 0) + (aconv q v k + Rabs x)) with (B + Rabs x) by (unfold B; ring).
-    now apply (step_ineq (G p) (G (S p)) B e (nth k r 0) x d1 d2). }
+    now apply (step_ineq (G c) (G (S c)) B e (nth k r 0) x d1 d2). }
   rewrite (Rhi k Km).
   destruct (Nat.eq_dec k (length r - 1)) as [Kt|Kt].
   { (* the cancelled leading coefficient: set to zero, its residual is the error of the division *)
+    destruct (Nat.ltb_spec k (length r)); [|lia].
     replace (k - s)%nat with (length v - 1)%nat by (unfold s; lia).
-    replace (nth k a 0 - (rconv q v k + c * nth (length v - 1) v 0) - 0)
+    replace (nth k a 0 - (rconv q v k + cc * nth (length v - 1) v 0) - 0)
       with (e - nth k r 0 * d0 + 0 * (0 + d0 + 0 * d0)) by (unfold e; rewrite Ed0, Kt; ring).
-    eapply Rle_trans; [apply (step_ineq (G p) (G (S p)) B e (nth k r 0) 0 0 d0); assumption|].
-    rewrite Rabs_R0. pose proof (G_nonneg (S p)).
-    pose proof (Rabs_pos c). pose proof (Rabs_pos (nth (length v - 1) v 0)).
+    eapply Rle_trans; [apply (step_ineq (G c) (G (S c)) B e (nth k r 0) 0 0 d0); assumption|].
+    rewrite Rabs_R0. pose proof (G_nonneg (S c)).
     apply Rmult_le_compat_l; [assumption|].
-    assert (0 <= Rabs c * Rabs (nth (length v - 1) v 0)) by now apply Rmult_le_pos.
+    assert (0 <= Rabs cc * Rabs (nth (length v - 1) v 0)) by (apply Rmult_le_pos; apply Rabs_pos).
     unfold B. lra. }
   (* above: both remainders and the product are zero there *)
+  destruct (Nat.ltb_spec k (length r)); [lia|].
   rewrite (nth_overflow v) by (unfold s; lia). rewrite Rmult_0_r, Rabs_R0, Rmult_0_r, !Rplus_0_r.
   replace (nth k a 0 - rconv q v k - 0) with e by (unfold e; rewrite (nth_overflow r) by lia; ring).
-  fold B. specialize (Easy 0 (Rle_refl 0)). now rewrite Rplus_0_r in Easy.
+  exact I.
 Qed.
 
+(* ---- the loop.  The counter of index k after p passes, the remainder having effective length n (0 once it is the
+   zero polynomial): every earlier pass had a shift s' > n - len v, and touched k only if k - len v < s' <= k; the
+   shifts are distinct, so at most min(p, len v, k + len v - n) passes touched k. *)
+Definition elen (r : list R) : nat := if is_zero (A := AR) r then 0%nat else length r.
+Definition cnt (p : nat) (r : list R) (k : nat) : nat := Nat.min p (Nat.min (length v) (k + length v - elen r)).
+Definition Inv (p : nat) (q r : list R) : Prop := forall k, Rabs (err q r k) <= G (cnt p r k) * bd q k.
 
-(* ---- the loop *)
+Lemma Inv_mono p p' q r : (p <= p')%nat -> Inv p q r -> Inv p' q r.
+Proof using u_range.
+  intros L H k. eapply Rle_trans; [apply H|]. apply Rmult_le_compat_r; [apply bd_nonneg|].
+  apply G_mono. unfold cnt. lia.
+Qed.
+
+Lemma Inv_body p (q r q1 r1 : list R) :
+  is_zero (A := AR) r = false -> (length v <= length r)%nat -> Fall q -> Fall r ->
+  nth (length r - length v) q 0 = 0 ->
+  polydiv_body (A := AR) q r v = Ok (q1, r1) -> (elen r1 < length r)%nat ->
+  Inv p q r -> Inv (S p) q1 r1.
+Proof using u_range fadd_ok fsub_ok fmul_ok fdiv_ok F_sub F_mul F_div fadd_0_l fadd_0_r fsub_0_r v_lead.
+  intros Cz Hlen Fq Fr Zs E He I k.
+  assert (Nr : r <> []) by (intros ->; discriminate Cz).
+  eapply Rle_trans; [apply (body_err (cnt p r k) q r q1 r1 k Nr Hlen Fq Fr Zs E (I k))|].
+  apply Rmult_le_compat_r; [apply bd_nonneg|]. apply G_mono.
+  assert (Er : elen r = length r) by (unfold elen; now rewrite Cz).
+  pose proof v_nonempty as Nv.
+  assert (Lv : (0 < length v)%nat) by (destruct v; [congruence|cbn; lia]).
+  unfold cnt. rewrite Er.
+  destruct (Nat.leb_spec (length r - length v) k), (Nat.ltb_spec k (length r)); cbn [andb]; lia.
+Qed.
+
 Definition Zq (q r : list R) : Prop := forall i, (i + length v <= length r)%nat -> nth i q 0 = 0.
 
 Lemma loop_round (fuel : nat) : forall count p (q0 r0 q r : list R),
@@ -471,11 +505,14 @@ Proof using u_range fadd_ok fsub_ok fmul_ok fdiv_ok F_sub F_mul F_div fadd_0_l f
     cbn [fst snd] in E.
     assert (Lv : (0 < length v)%nat) by (destruct v; [congruence|cbn; lia]).
     assert (Zs : nth (length r0 - length v) q0 0 = 0) by (apply Z; lia).
-    pose proof (body_inv p q0 r0 q1 r1 Nr Cl Fq Fr Zs Eb I) as I1.
     destruct (body_round q0 r0 q1 r1 Nr Cl Fq Fr Zs Eb) as (c & Fc & _ & Q1 & Fq1 & Fr1 & _).
     destruct (@polydiv_body_ok AR (eqbR_refl 0) v Nv (fun x => ex_intro _ _ eq_refl) q0 r0 Nr Cl)
       as (q' & r' & Eb' & Hr1).
     rewrite Eb in Eb'. injection Eb' as <- <-.
+    assert (He : (elen r1 < length r0)%nat).
+    { unfold elen. destruct Hr1 as [Hlt|Hz]; [|rewrite Hz; lia].
+      destruct (is_zero (A := AR) r1); [lia|]. change (T AR) with R in *. exact Hlt. }
+    pose proof (Inv_body p q0 r0 q1 r1 Cz Cl Fq Fr Zs Eb He I) as I1.
     destruct Hr1 as [Hlt|Hz].
     + eapply Inv_mono; [|apply (IH _ (S p) _ _ _ _ E Fq1 Fr1); [|exact I1]].
       * change (T AR) with R in *. lia.
@@ -485,24 +522,62 @@ Proof using u_range fadd_ok fsub_ok fmul_ok fdiv_ok F_sub F_mul F_div fadd_0_l f
       eapply Inv_mono; [|exact I1]. lia.
 Qed.
 
+(* the headline: M = min(N, len v) counts the passes that can touch one coefficient *)
 Theorem polydiv_rounded_identity_lemma (q r : list R) :
-  Forall F a -> INR (2 * (length a + 1 - length v)) * u < 1 ->
+  Forall F a -> INR (2 * Nat.min (length a + 1 - length v) (length v)) * u < 1 ->
   polydiv (A := AR) a v = Ok (inl (q, r)) ->
   forall k, Rabs (nth k a 0 - Rsum (S k) (fun i => nth i q 0 * nth (k - i) v 0) - nth k r 0)
-            <= gam (2 * (length a + 1 - length v))
+            <= gam (2 * Nat.min (length a + 1 - length v) (length v))
                * (Rabs (nth k a 0) + Rsum (S k) (fun i => Rabs (nth i q 0) * Rabs (nth (k - i) v 0))).
 Proof using u_range fadd_ok fsub_ok fmul_ok fdiv_ok F_sub F_mul F_div fadd_0_l fadd_0_r fsub_0_r v_lead.
   intros Fa Hn. unfold polydiv. destruct (length _ =? 0)%nat; [discriminate|].
   destruct (is_zero _); [discriminate|]. intros E k.
   assert (I0 : Inv 0 [] a).
-  { intros j. rewrite rconv_nil_l, G_0.
+  { intros j. unfold cnt. cbn [Nat.min]. unfold err. rewrite rconv_nil_l, G_0.
     replace (nth j a 0 - 0 - nth j a 0) with 0 by ring. rewrite Rabs_R0. lra. }
   assert (Fn : Fall []) by (intros i; destruct i; exact F_0).
   assert (Zn : Zq [] a) by (intros i _; now destruct i).
   pose proof (loop_round _ _ _ _ _ _ _ E Fn (Fall_of_Forall a Fa) Zn I0 k) as H.
   cbn [plus] in H. eapply Rle_trans; [exact H|].
-  apply Rmult_le_compat_r; [|now apply G_gam].
-  pose proof (Rabs_pos (nth k a 0)). pose proof (aconv_nonneg q v k) as P. unfold aconv in P. lra.
+  apply Rmult_le_compat_r; [apply bd_nonneg|].
+  eapply Rle_trans; [|apply G_gam; exact Hn]. apply G_mono. unfold cnt. lia.
+Qed.
+
+(* the same with the computed remainder on the right-hand side instead of the dividend:
+   |a_k| <= Sum |q_i||v_{k-i}| + |r_k| + |E_k| turns gam(2M)(|a_k| + Sum) into gam(4M)(Sum + |r_k|) *)
+Theorem polydiv_rounded_residual_lemma (q r : list R) :
+  Forall F a -> INR (4 * Nat.min (length a + 1 - length v) (length v)) * u < 1 ->
+  polydiv (A := AR) a v = Ok (inl (q, r)) ->
+  forall k, Rabs (nth k a 0 - Rsum (S k) (fun i => nth i q 0 * nth (k - i) v 0) - nth k r 0)
+            <= gam (4 * Nat.min (length a + 1 - length v) (length v))
+               * (Rsum (S k) (fun i => Rabs (nth i q 0) * Rabs (nth (k - i) v 0)) + Rabs (nth k r 0)).
+Proof using u_range fadd_ok fsub_ok fmul_ok fdiv_ok F_sub F_mul F_div fadd_0_l fadd_0_r fsub_0_r v_lead.
+  intros Fa Hn E k. set (M := Nat.min (length a + 1 - length v) (length v)) in *.
+  assert (I4 : INR (4 * M) = 2 * INR (2 * M)).
+  { replace (4 * M)%nat with (2 * M + 2 * M)%nat by lia. rewrite plus_INR. ring. }
+  pose proof (pos_INR (2 * M)) as P2.
+  assert (H2 : INR (2 * M) * u < 1) by (rewrite I4 in Hn; nra).
+  pose proof (polydiv_rounded_identity_lemma q r Fa H2 E k) as H. fold M in H.
+  fold (rconv q v k) in *. fold (aconv q v k) in *.
+  set (e := nth k a 0 - rconv q v k - nth k r 0) in *.
+  pose proof (aconv_nonneg q v k) as PA. pose proof (Rabs_pos (nth k r 0)) as PR. pose proof (Rabs_pos e) as PE.
+  assert (Ha : Rabs (nth k a 0) <= aconv q v k + Rabs (nth k r 0) + Rabs e).
+  { replace (nth k a 0) with (rconv q v k + nth k r 0 + e) by (unfold e; ring).
+    eapply Rle_trans; [apply Rabs_triang|]. eapply Rle_trans; [apply Rplus_le_compat_r, Rabs_triang|].
+    pose proof (rconv_le_aconv q v k). lra. }
+  unfold RoundModel.gam in *. rewrite I4. set (t := INR (2 * M) * u) in *.
+  assert (T0 : 0 <= t) by (unfold t; nra).
+  assert (T1 : 2 * t < 1) by (unfold t; rewrite I4 in Hn; lra).
+  replace (2 * INR (2 * M) * u) with (2 * t) by (unfold t; ring).
+  assert (K : Rabs e * (1 - t) <= t * (Rabs (nth k a 0) + aconv q v k)).
+  { apply (Rmult_le_compat_r (1 - t)) in H; [|lra].
+    replace (t / (1 - t) * (Rabs (nth k a 0) + aconv q v k) * (1 - t))
+      with (t * (Rabs (nth k a 0) + aconv q v k)) in H by (field; lra). exact H. }
+  assert (K2 : Rabs e * (1 - 2 * t) <= 2 * t * (aconv q v k + Rabs (nth k r 0))) by nra.
+  apply (Rmult_le_reg_r (1 - 2 * t)); [lra|].
+  replace (2 * t / (1 - 2 * t) * (aconv q v k + Rabs (nth k r 0)) * (1 - 2 * t))
+    with (2 * t * (aconv q v k + Rabs (nth k r 0))) by (field; lra).
+  exact K2.
 Qed.
 
 End RoundPolyDiv.
